@@ -173,8 +173,8 @@ def check(ctx):
                     fit = mask[2][1][1][1]
                     if fit[0] == "sub" and fit[2][0] == "bin" and fit[2][1] == "&":
                         conds = {ir.show(fit[2][2], maxdepth=3)[-30:], ir.show(fit[2][3], maxdepth=3)[-30:]}
-                        rep = any(x[0] == "attr" and x[2] == "reporting" for x in (fit[2][2], fit[2][3]))
-                        exp = any(x[0] == "cmp" and x[1] == "==" and x[2][0] == "attr" and x[2][2] == "unit_category" and x[3] == ("const", "expected") for x in (fit[2][2], fit[2][3]))
+                        rep = any(ir.column_ref(x) is not None and ir.column_ref(x)[1] == "reporting" for x in (fit[2][2], fit[2][3]))
+                        exp = any(x[0] == "cmp" and x[1] == "==" and ir.column_ref(x[2]) is not None and ir.column_ref(x[2])[1] == "unit_category" and x[3] == ("const", "expected") for x in (fit[2][2], fit[2][3]))
                         okact = rep and exp
                         detail = ("active = expanded levels with a positive column sum over rows with reporting & unit_category == 'expected'" if okact
                                   else f"fitting rows are selected by {ir.show(fit[2], maxdepth=4)}")
@@ -275,9 +275,15 @@ def check(ctx):
         ok7 = False
         for c, pol in pc:
             if c[0] == "cmp" and ((c[1] == "in" and pol) or (c[1] == "not in" and not pol)) and c[2] == st_elem:
-                txt = ir.show(c[3], maxdepth=8).replace("numpy.", "")
-                if "isclose(" in txt and ".reporting, 1)" in txt and ".postal_code.unique()" in txt:
-                    ok7 = True
+                # the states that have a row with reporting == 1:  <frame>[isclose(<frame>.reporting, 1)].postal_code.unique()
+                u_ = c[3]
+                if u_[0] == "call" and u_[1][0] == "attr" and u_[1][2] == "unique" and not u_[2]:
+                    pc_ = ir.column_ref(u_[1][1])
+                    if pc_ is not None and pc_[1] == "postal_code" and pc_[0][0] == "sub":
+                        m_ = pc_[0][2]
+                        if m_[0] == "call" and ir.show(m_[1]).endswith("isclose") and len(m_[2]) == 2 and m_[2][1] == ("const", 1) \
+                                and ir.column_ref(m_[2][0]) is not None and ir.column_ref(m_[2][0])[1] == "reporting":
+                            ok7 = True
         ctx.ob("C16.R7.states", f"{pd_.qualname}|per-state copies only for states with reporting rows", ok7, pd_.where(n),
                "a state without reporting rows gets no copy (no all-zero feature column)" if ok7
                else f"the per-state copy is written under {[ir.show(c, maxdepth=4) + ('' if pol else ' [negated]') for c, pol in pc if not ir.show(c).startswith('<loop')]}")
